@@ -415,9 +415,13 @@ def verify_unit(unit, workdir, tier='quick'):
     defs = ['-D' + d for d in unit.defines] + ['-DCBMC_VERIF']
     if tier == 'thorough': defs.append('-DTHOROUGH')
     h = 'h_' + unit.cname
-    rc, out, _ = run(['goto-cc', '--function', h, '-I', CONTRACTS] + defs + ['unit.c', '-o', 'a.gb'], workdir, 120, log)
+    rc, out, _ = run(['goto-cc', '--verbosity', '2', '--function', h, '-I', CONTRACTS] + defs + ['unit.c', '-o', 'a.gb'], workdir, 120, log)
     if rc != 0:
         res['undecided'] = 'extracted unit does not compile as C (extraction drift or unmodelled syntax): ' + first_error(out)
+        return res
+    und = [f for f in re.findall(r"function '([^']+)' is not declared", out) if f not in ('memcpy', 'memset', 'memmove', 'memcmp')]   # CBMC's own library models
+    if und:     # C would accept the call and CBMC would treat it as a no-op returning anything: never verify against that
+        res['undecided'] = 'extraction drift: the extracted unit calls function(s) no contract or model declares: ' + ', '.join(sorted(set(und)))
         return res
     gi = ['goto-instrument', '--dfcc', h, '--enforce-contract-rec' if unit.rec else '--enforce-contract', unit.enforce]
     for r in b['replace']:
